@@ -66,7 +66,7 @@ EdgesF(S, f) == {k \in Keys(S) : Pass(k, f)}
 WellFormed(S) ==
   /\ \A k \in Keys(S) : WFKey(k) /\ KN(k) \subseteq S.nodes
   /\ DOMAIN S.nmd = S.nodes
-  /\ \A k \in Keys(S) : S.E[k].w \in Nat \ {0} /\ (~S.wtd => S.E[k].w = 1)
+  /\ \A k \in Keys(S) : S.E[k].w \in Nat /\ (~S.wtd => S.E[k].w = 1)
 
 ---------------------------------------------------------------------------
 (* Metadata helpers *)
@@ -87,10 +87,11 @@ AddNode(S, n, hasmd, md) ==
        ELSE IF S.nmd[n] = NoMeta THEN {[S EXCEPT !.nmd[n] = md]}
        ELSE {S, [S EXCEPT !.nmd[n] = md]}          \* open corner: metadata on a node that has some
 
-\* weight argument 0 stands for "not given"
-AddEdge(S, k, w, hasmd, md) ==
-  IF ~WFKey(k) \/ (~S.wtd /\ w \notin {0, 1}) THEN {}
-  ELSE LET W  == IF w = 0 THEN 1 ELSE w
+\* weight argument 0 stands for "not given"; z = TRUE means the weight given IS the number zero
+\* (falsy values are where `x or default` mistakes hide)
+AddEdgeZ(S, k, w, z, hasmd, md) ==
+  IF ~WFKey(k) \/ (~S.wtd /\ (z \/ w \notin {0, 1})) THEN {}
+  ELSE LET W  == IF z THEN 0 ELSE IF w = 0 THEN 1 ELSE w
            S1 == WithNodes(S, KN(k))
            given == IF hasmd THEN md ELSE NoMeta
        IN IF k \notin Keys(S)
@@ -98,6 +99,9 @@ AddEdge(S, k, w, hasmd, md) ==
           ELSE LET nw == IF S.wtd THEN S.E[k].w + W ELSE S.E[k].w
                    mds == IF hasmd THEN {md} ELSE {NoMeta, S.E[k].md}   \* open corner: re-insert without metadata
                IN {[S1 EXCEPT !.E[k] = [w |-> nw, md |-> m]] : m \in mds}
+
+AddEdge(S, k, w, hasmd, md) == AddEdgeZ(S, k, w, FALSE, hasmd, md)
+IsZero(r) == "zero" \in DOMAIN r /\ r.zero
 
 RemoveEdge(S, k) ==
   IF k \notin Keys(S) THEN {} ELSE {[S EXCEPT !.E = Without(S.E, {k})]}
@@ -137,7 +141,7 @@ RemoveNodeKeep(S, n) ==
 RemoveNode(S, n, keep) == IF keep THEN RemoveNodeKeep(S, n) ELSE RemoveNodeDrop(S, n)
 
 SetWeight(S, k, w) ==
-  IF k \notin Keys(S) \/ w = 0 \/ (~S.wtd /\ w # 1) THEN {} ELSE {[S EXCEPT !.E[k].w = w]}
+  IF k \notin Keys(S) \/ (~S.wtd /\ w # 1) THEN {} ELSE {[S EXCEPT !.E[k].w = w]}
 
 SetNodeMd(S, n, md) == IF n \notin S.nodes THEN {} ELSE {[S EXCEPT !.nmd[n] = md]}
 SetEdgeMd(S, k, md) == IF k \notin Keys(S) THEN {} ELSE {[S EXCEPT !.E[k].md = md]}
@@ -161,7 +165,7 @@ Fold(One(_, _), Ss, items, i) ==
   ELSE Fold(One, UNION {One(S, items[i]) : S \in Ss}, items, i + 1)
 
 AddNodesOne(S, it)    == AddNode(S, it.n, it.hasmd, it.md)
-AddEdgesOne(S, it)    == IF it.bad # "" THEN {} ELSE AddEdge(S, it.k, it.w, it.hasmd, it.md)
+AddEdgesOne(S, it)    == IF it.bad # "" THEN {} ELSE AddEdgeZ(S, it.k, it.w, IsZero(it), it.hasmd, it.md)
 RemoveEdgesOne(S, k)  == RemoveEdge(S, k)
 RemoveNodesDrop(S, n) == RemoveNode(S, n, FALSE)
 RemoveNodesKeep(S, n) == RemoveNode(S, n, TRUE)
@@ -171,7 +175,7 @@ Distinct(sq) == \A i, j \in DOMAIN sq : i # j => sq[i] # sq[j]
 Succ(S, o) ==
   CASE o.op = "add_node"      -> AddNode(S, o.n, o.hasmd, o.md)
     [] o.op = "add_nodes"     -> Fold(AddNodesOne, {S}, o.items, 1)
-    [] o.op = "add_edge"      -> IF o.bad # "" THEN {} ELSE AddEdge(S, o.k, o.w, o.hasmd, o.md)
+    [] o.op = "add_edge"      -> IF o.bad # "" THEN {} ELSE AddEdgeZ(S, o.k, o.w, IsZero(o), o.hasmd, o.md)
     [] o.op = "add_edges"     -> Fold(AddEdgesOne, {S}, o.items, 1)
     [] o.op = "remove_edge"   -> RemoveEdge(S, o.k)
     [] o.op = "remove_edges"  -> Fold(RemoveEdgesOne, {S}, o.ks, 1)
